@@ -289,6 +289,20 @@ def check_partition_sets(case, rec):
     else:  # gmsh itself produced another mesh (recombination of tiny unstructured QUAD/HEXA recipes)
         rec.label("gmsh_mesh_not_reproducible(skipped reproducibility oracle)")
 
+    # --- every part written with Mesh.Save and read back with Load_Mesh is the same part (sets, rows, coordinates, tags) -----
+    import shutil
+    import tempfile
+
+    from EasyFEA.FEM._mesh import Load_Mesh
+
+    tmp = tempfile.mkdtemp(prefix="verif_c20_")
+    try:
+        loaded = [Load_Mesh(m.Save(tmp, f"part{k}")) for k, m in enumerate(parts)]
+    finally:
+        shutil.rmtree(tmp, ignore_errors=True)
+    rec.require(_snapshot(loaded) == _snapshot(parts), "save_load_part",
+                f"{types} Nproc={Nproc}: a part differs after Mesh.Save / Load_Mesh (owned / ghost sets, rows, coordinates or tags)", **sig0)
+
     if n_empty:
         rec.label("fewer_nonempty_parts_than_asked")
     itf = interface_nodes(gl, {t: owner_of_elem[t] for t in main})
